@@ -497,6 +497,11 @@ class JetAnalysis:
                 "'jet_pT_range_' is None. It must be initialized before calling the 'perform_jet_finding' function."
             )
 
+        # The output file contains only the jets of this call: start from an
+        # empty file, no matter which events (if any) contain jets.
+        with open(output_filename, "w", newline=""):
+            pass
+
         for event, hadron_data_event in enumerate(self.hadron_data_):
             new_file = False
             event_PseudoJets = self.create_fastjet_PseudoJets(hadron_data_event)
